@@ -47,6 +47,16 @@ def World.dump (w : World) : String :=
   "A[" ++ joinWith ";" accts ++ "] B[" ++ joinWith ";" bals ++ "] L[" ++ joinWith ";" logs
     ++ "] T[" ++ joinWith ";" trans ++ "] X[" ++ joinWith ";" acc ++ "]"
 
+/-- end-of-block answer of the real block loop stream: all logs, transient storage, access list -/
+def World.dumpScratch (w : World) : String :=
+  let u := w.addrUniverse
+  let logs := w.logs.map Log.name
+  let trans := sortDedup ((u.map (fun a => slotUniverse.filterMap (fun k =>
+    let v := w.getTransient a k
+    if v = 0 then none else some (a.name ++ "." ++ toString k ++ "=" ++ toString v)))).flatten)
+  let acc := sortDedup (w.access.map Addr.name)
+  "L[" ++ joinWith ";" logs ++ "] T[" ++ joinWith ";" trans ++ "] X[" ++ joinWith ";" acc ++ "]"
+
 def fnv1a (s : String) : UInt64 :=
   s.toUTF8.foldl (fun h b => (h ^^^ b.toUInt64) * 1099511628211) 14695981039346656037
 
